@@ -454,6 +454,14 @@ class Run:
             raise
         return True
 
+    def refine(self, k=-1):
+        """DoLocalRefinement(k) called by the user between global phases (k = -1: the default local budget)"""
+        if self.collapsed:
+            return
+        common.beat("oracle: DoLocalRefinement(%d)" % k, {"case": self.case})
+        with contextlib.redirect_stdout(self.out), watchdog(self):
+            self.solver.DoLocalRefinement(k)
+
     def trouble(self, err=None):
         """None, or what went wrong inside the solver other than a legitimate float collapse"""
         if self.peek_differs:
